@@ -39,3 +39,16 @@ ENTRY.setdefault("lean_props_extra", []).append(_fj.EXTRA_LEAN)
 ENTRY["trusted_base"] = ENTRY["trusted_base"] + _fj.TRUSTED_BASE
 ENTRY["assumptions"] = [_fj.ASSUMPTION_REPLACEMENT] + ENTRY["assumptions"][1:] + _fj.ASSUMPTIONS
 ENTRY["level_text"] += _fj.LEVEL_TEXT
+
+# Fifth session: what sits around provide — the lazy client every configured node is wrapped in (app/eth2wrap/lazy.go:
+# creation under a mutex, failures, cancellation, retried creation, cache / fork-version hand-over to clients created later)
+# and the hand-written methods of multi.go / httpwrap.go: Model/LazyMulti.lean (a multi call goes through Model/Provide),
+# theorems Props/C19LazyMulti.lean, stream lazymulti (eth2wrap.Instrument over real lazy clients with a scripted provider,
+# racing callers advanced one event at a time; hook c99339c).
+from vlib import snippet_C19lazymulti as _lm
+ENTRY["streams"] = ENTRY["streams"] + [_lm.STREAM]
+ENTRY.setdefault("lean_props_extra", []).append(_lm.EXTRA_LEAN)
+# (C19 has no monitor_sigs filter: every signature of its streams, incl. lazymulti:, counts)
+ENTRY["trusted_base"] = ENTRY["trusted_base"] + _lm.TRUSTED_BASE
+ENTRY["assumptions"] = ENTRY["assumptions"] + _lm.ASSUMPTIONS
+ENTRY["level_text"] += _lm.LEVEL_TEXT
